@@ -95,3 +95,46 @@ Proof.
   rewrite res_app, (read_cunion_ok (ibytes nm) (map bcub bl) (S g) _ _ Hu). cbn [un_name un_fields cunion_of].
   replace (cusum (map bcub bl) + S (S (S g))) with (S (cusum (map bcub bl) + S (S g))) by lia. rewrite top_newline. reflexivity.
 Qed.
+
+(* ... a readonly struct with documented fields, and an enum without a declared base type with documented members *)
+Require Import Bebop.front.TyFVar.
+Definition gcrostruct_of (cmt : bytes) (oc : N) (nm : bytes) (fl : list cfield) : struct_ :=
+  {| s_name := nm; s_comment := cmt; s_fields := map cfield_of fl; s_opcode := oc; s_readonly := true |}.
+Definition b_cfrostruct (nm : ident) (fl : list cfdef) : gbase :=
+  {| gb_toks := it_toks (cfr_item nm fl); gb_need := it_need (cfr_item nm fl); gb_fneed := it_fneed (cfr_item nm fl);
+     gb_upd := fun cmt oc f => add_struct f (gcrostruct_of cmt oc (ibytes nm) (map bcf fl)); gb_text := it_text (cfr_item nm fl); gb_opc0 := false |}.
+Lemma b_cfrostruct_ok nm fl : ident_ok nm -> Forall cfdef_ok fl -> gbase_ok (b_cfrostruct nm fl) (cfr_x nm fl).
+Proof.
+  intros Hn Hf. apply (gbase_from_item (cfr_item nm fl) (cfr_x nm fl) (b_cfrostruct nm fl) (cfr_item_ok nm fl Hn Hf)); try reflexivity.
+  intros cm opc g f tail c _. pose proof (ckeys_of fl Hf) as Hk. cbn [b_cfrostruct gb_need gb_toks gb_upd cfr_item it_need it_toks].
+  exists (csum (map bcf fl) + S g). split; [lia|].
+  replace (csum (map bcf fl) + 3 + g) with (S (csum (map bcf fl) + S (S g))) by lia. unfold cstruct_toks.
+  change (readonlyT :: [structT; idT (ibytes nm); openT; nlT] ++ cfields_toks (map bcf fl) ++ [closeT; nlT])
+    with ([readonlyT; structT] ++ ([idT (ibytes nm); openT; nlT] ++ cfields_toks (map bcf fl) ++ [closeT] ++ [nlT])).
+  rewrite res_app, top_ro_head_gen. unfold bind.
+  replace ([idT (ibytes nm); openT; nlT] ++ cfields_toks (map bcf fl) ++ [closeT] ++ [nlT])
+    with (([idT (ibytes nm); openT; nlT] ++ cfields_toks (map bcf fl) ++ [closeT]) ++ [nlT]) by (rewrite <- !app_assoc; reflexivity).
+  rewrite res_app, (read_cstruct_ok (ibytes nm) (map bcf fl) g _ _ Hk). cbn [s_name s_fields cstruct_of].
+  replace (csum (map bcf fl) + S (S g)) with (S (csum (map bcf fl) + S g)) by lia.
+  rewrite top_newline. reflexivity.
+Qed.
+Definition gcuenum_of (cmt : bytes) (nm : bytes) (ml : list cmember) : enum_ :=
+  {| e_name := nm; e_comment := cmt; e_opts := map (cmember_opt true) ml; e_simple := s_uint32; e_unsigned := true |}.
+Definition b_cuenum (nm : ident) (ml : list cedef) : gbase :=
+  {| gb_toks := it_toks (cue_item nm ml); gb_need := it_need (cue_item nm ml); gb_fneed := it_fneed (cue_item nm ml);
+     gb_upd := fun cmt oc f => add_enum f (gcuenum_of cmt (ibytes nm) (map bce ml)); gb_text := it_text (cue_item nm ml); gb_opc0 := true |}.
+Lemma b_cuenum_ok nm ml : ident_ok nm -> Forall cedef_ok ml -> Forall (cmember_ok true 32%N) (map bce ml) -> gbase_ok (b_cuenum nm ml) (cue_x nm ml).
+Proof.
+  intros Hn Hm He. apply (gbase_from_item (cue_item nm ml) (cue_x nm ml) (b_cuenum nm ml) (cue_item_ok nm ml Hn Hm He)); try reflexivity.
+  intros cm opc g f tail c Ho. rewrite (Ho eq_refl). cbn [b_cuenum gb_need gb_toks gb_upd cue_item it_need it_toks].
+  exists (cesum (map bce ml) + S g). split; [lia|].
+  replace (cesum (map bce ml) + 3 + g) with (S (cesum (map bce ml) + S (S g))) by lia. unfold cuenum_toks.
+  change ([enumT; idT (ibytes nm); openT; nlT] ++ cmembers_toks (map bce ml) ++ [closeT; nlT])
+    with ([enumT] ++ ([idT (ibytes nm); openT; nlT] ++ cmembers_toks (map bce ml) ++ [closeT] ++ [nlT])).
+  rewrite res_app, top_enum_head_gen. unfold bind.
+  replace ([idT (ibytes nm); openT; nlT] ++ cmembers_toks (map bce ml) ++ [closeT] ++ [nlT])
+    with (([idT (ibytes nm); openT; nlT] ++ cmembers_toks (map bce ml) ++ [closeT]) ++ [nlT]) by (rewrite <- !app_assoc; reflexivity).
+  rewrite res_app, (read_cuenum_ok (ibytes nm) (map bce ml) g _ _ He). cbn [e_name e_opts e_simple e_unsigned cuenum_of].
+  replace (cesum (map bce ml) + S (S g)) with (S (cesum (map bce ml) + S g)) by lia.
+  rewrite top_newline. reflexivity.
+Qed.
